@@ -93,7 +93,21 @@ SHAPES = [
     Shape("optfloat", "Optional[float]", True, True, (("val", "float('nan')"), ("val", "None")),
           ("None", "float('nan')", "1.0")),
 ]
+# the field `gv: T` of a generic dataclass, as the specialisation sees it (OptProj.fty is the RESOLVED type)
+GENERIC_SHAPES = {
+    "": Shape("tv_any", "T", True, True, (("no", None),), ("None", "1", "'q'"), "TyTypeVarAny"),     # bare G: T unbound
+    "int": Shape("tv_int", "T", False, True, (("no", None),), ("1", "0", "7")),
+    "date": Shape("tv_date", "T", False, False, (("no", None),), ("date(2020, 1, 1)", "date(1999, 9, 9)")),
+    # T bound to Optional[...] / a wider union with None / Any: is_field_nullable resolves the variable first
+    # (/repo 4da7e9e, was finding omit-none-typevar-optional) -> nullable like the binding
+    "Optional[int]": Shape("tv_optint", "T", True, True, (("no", None),), ("None", "5", "3"), "TyOptional"),
+    "Optional[date]": Shape("tv_optdate", "T", True, False, (("no", None),), ("None", "date(2020, 1, 1)", "date(1999, 9, 9)"),
+                            "TyOptional"),
+    "Union[int, str, None]": Shape("tv_wide", "T", True, True, (("no", None),), ("None", "5", "'s'"), "TyUnionNone"),
+    "Any": Shape("tv_bound_any", "T", True, True, (("no", None),), ("None", "'q'", "1"), "TyAny"),
+}
 SHAPE = {s.key: s for s in SHAPES}
+SHAPE.update({s.key: s for s in GENERIC_SHAPES.values()})
 
 
 @dataclass(frozen=True)
@@ -157,12 +171,13 @@ HEADER = """import enum
 from dataclasses import dataclass, field
 from datetime import date
 from pathlib import PurePosixPath
-from typing import Annotated, Any, Dict, Final, List, Optional, Tuple, Union
+from typing import Annotated, Any, Dict, Final, Generic, List, Optional, Tuple, TypeVar, Union
 from mashumaro import DataClassDictMixin
 from mashumaro.config import (BaseConfig, TO_DICT_ADD_OMIT_NONE_FLAG, TO_DICT_ADD_BY_ALIAS_FLAG,
                               ADD_DIALECT_SUPPORT, ADD_SERIALIZATION_CONTEXT)
 from mashumaro.dialect import Dialect
 from mashumaro.mixins.toml import DataClassTOMLMixin
+T = TypeVar("T")
 class Color(enum.Enum):
     RED = 1
     BLUE = 2
@@ -718,9 +733,11 @@ class DcField:
     many: bool = False        # List[<class>] with default_factory=list
     mapping: bool = False     # Dict[str, <class>] with default_factory=dict
 
-    def ty(self, prefix: str) -> str:
-        t = prefix + str(self.members[0]) if len(self.members) == 1 else \
-            "Union[" + ", ".join(prefix + str(m) for m in self.members) + "]"
+    def ty(self, prefix: str, table=None) -> str:
+        def ref(m):       # a generic class is referenced as C<m>[<its type argument>] (bare when it has none)
+            c = table[m] if table is not None else None
+            return prefix + str(m) + (f"[{c.targ}]" if c is not None and c.generic and c.targ else "")
+        t = ref(self.members[0]) if len(self.members) == 1 else "Union[" + ", ".join(ref(m) for m in self.members) + "]"
         if self.many:
             return f"List[{t}]"
         if self.mapping:
@@ -737,13 +754,15 @@ class NCls:
     n_inh: int = 0
     own_cfg: bool = True
     cfg_owner: int = -1       # class whose CfgD<id> dialect class o.cfgd refers to
+    generic: bool = False     # class C(Generic[T]) whose first own field is `gv: T`; every reference uses the same targ
+    targ: str = ""
 
 
 LEAF_NESTED = [("optint", "val", "None"), ("int", "val", "1"), ("date", "no", None), ("optdate", "val", "None"),
                ("any", "val", "None"), ("int_none", "val", "None")]
 
 
-def gen_table(rng, unions: bool = True, inherit: bool = True) -> list[NCls]:
+def gen_table(rng, unions: bool = True, inherit: bool = True, generics: float = 0.3) -> list[NCls]:
     """class 0 is a mixin root; the others are mixin subclasses, plain dataclasses with a Config, or plain
     dataclasses without any Config; class i only refers to classes j > i"""
     n = rng.randint(2, 5)
@@ -759,7 +778,8 @@ def gen_table(rng, unions: bool = True, inherit: bool = True) -> list[NCls]:
             o = Opts(cfgd=gen_ns(rng, 0.45), cfg=gen_ns(rng, 0.3) or ("U", "U", "U"), sort=rng.random() < 0.3,
                      fon=fon, fba=fba, fdl=fdl, fcx=fcx, lazy=mixin and rng.random() < 0.2, cfg_style=gen_cfg_style(rng))
         later = list(range(cid + 1, n))
-        parent = rng.choice(later) if (inherit and later and rng.random() < 0.3) else None
+        bases = [j for j in later if not table[j].generic]       # a generic class is specialised by its users, not derived from
+        parent = rng.choice(bases) if (inherit and bases and rng.random() < 0.3) else None
         if parent is not None and len(table[parent].fields) > len(NAMES) - 3:
             parent = None                                # no free field names left for a further subclass
         inherited: tuple = ()
@@ -792,7 +812,13 @@ def gen_table(rng, unions: bool = True, inherit: bool = True) -> list[NCls]:
             else:
                 sh, dk, ds = rng.choice(LEAF_NESTED)
                 fields.append(FieldSpec(nm, sh, dk, ds, al, rng.random() < 0.08))
-        table[cid] = NCls(o, tuple(inherited) + tuple(fields), mixin, parent, len(inherited), own_cfg, cfg_owner)
+        generic, targ = False, ""
+        if parent is None and rng.random() < generics:
+            # class C<cid>(Generic[T]) with the field `gv: T`; every user refers to it as C<cid>[targ] (bare for "")
+            generic, targ = True, rng.choice(list(GENERIC_SHAPES))
+            fields.insert(rng.randrange(len(fields) + 1),
+                          FieldSpec("gv", GENERIC_SHAPES[targ].key, "no", None, "GV" if rng.random() < 0.4 else None, False))
+        table[cid] = NCls(o, tuple(inherited) + tuple(fields), mixin, parent, len(inherited), own_cfg, cfg_owner, generic, targ)
     return table
 
 
@@ -831,7 +857,7 @@ def definition_order(rng, table) -> list[int]:
     return done
 
 
-def nfield_line(f, plain: bool) -> str:
+def nfield_line(f, plain: bool, table=None) -> str:
     if isinstance(f, FieldSpec):
         return field_line(f, plain)
     args = []
@@ -848,7 +874,7 @@ def nfield_line(f, plain: bool) -> str:
         md["serialize"] = "omit"
     if md:
         args.append(f"metadata={md!r}")
-    ty = f.ty("P" if plain else "C")
+    ty = f.ty("P" if plain else "C", table)
     return f"    {f.name}: {ty}" + (f" = field({', '.join(args)})" if args else "")
 
 
@@ -860,13 +886,32 @@ def table_source(table: list[NCls], call, order: list[int]) -> str:
         c = table[cid]
         if c.own_cfg and c.o.cfgd is not None:
             src += dialect_source(f"CfgD{cid}", c.o.cfgd)
-        src += class_source(f"C{cid}", [nfield_line(f, False) for f in c.fields[c.n_inh:]], c.o if c.own_cfg else None,
-                            cfgd_name=f"CfgD{cid}", mixin=c.mixin, base=f"C{c.parent}" if c.parent is not None else None)
+        src += class_source(f"C{cid}", [nfield_line(f, False, table) for f in c.fields[c.n_inh:]], c.o if c.own_cfg else None,
+                            cfgd_name=f"CfgD{cid}", mixin=c.mixin, base=class_base(c, "C"))
     for cid in order:
         c = table[cid]
-        src += class_source(f"P{cid}", [nfield_line(f, True) for f in c.fields[c.n_inh:]], None, mixin=c.mixin,
-                            base=f"P{c.parent}" if c.parent is not None else None)
+        src += class_source(f"P{cid}", [nfield_line(f, True, table) for f in c.fields[c.n_inh:]], None, mixin=c.mixin,
+                            base=class_base(c, "P"))
     return src
+
+
+def class_base(c: NCls, prefix: str) -> str | None:
+    if c.parent is not None:
+        return f"{prefix}{c.parent}"
+    if c.generic:
+        return "DataClassDictMixin, Generic[T]" if c.mixin else "Generic[T]"
+    return None
+
+
+def cls_ref(c: NCls, cid: int, prefix: str) -> str:
+    """the type expression users (fields, codecs) name the class by"""
+    return f"{prefix}{cid}" + (f"[{c.targ}]" if c.generic and c.targ else "")
+
+
+def bare_root_ok(c: NCls) -> bool:
+    """<instance>.to_dict() runs the method of the UNSPECIALISED class: for a generic class whose users bind T the field
+    `gv` has another resolved type there (an unconstrained variable), which the table's single plan does not describe"""
+    return c.mixin and not (c.generic and c.targ)
 
 
 def gen_tree(rng, table, cid: int, subs: bool = True, depth: int = 0):
@@ -1104,7 +1149,7 @@ def run_nested(ctx: vlib.Ctx, ncases: list[str], ninfo: list):
     for _ in range(ctx.budget(150, 1500)):
         table = gen_table(rng)
         order = definition_order(rng, table)
-        roots = [cid for cid in range(len(table)) if table[cid].mixin]
+        roots = [cid for cid in range(len(table)) if bare_root_ok(table[cid])]
         rng.shuffle(roots)                       # call order: lazily compiled owners meet shared classes in this order
         call = gen_ns(rng, 0.2) if (any(table[r].o.fdl for r in roots) and rng.random() < 0.4) else None
         src = table_source(table, call, order)
@@ -1112,6 +1157,8 @@ def run_nested(ctx: vlib.Ctx, ncases: list[str], ninfo: list):
         ctx.hist("nested_classes", str(len(table)))
         for c in table[1:]:
             ctx.hist("nested_kind", "mixin" if c.mixin else ("plain+Config" if c.o != Opts() else "plain"))
+            if c.generic:
+                ctx.hist("generic_binding", c.targ or "<bare>")
         for rid in roots[:3]:
             root = table[rid]
             ctx.hist("nested_root", "class0" if rid == 0 else "inner-mixin-as-root")
@@ -1121,6 +1168,52 @@ def run_nested(ctx: vlib.Ctx, ncases: list[str], ninfo: list):
                 rcall = call if root.o.fdl else None
                 eval_nested(ctx, table, order, src, ns, rid, gen_tree(rng, table, rid), kon, kba, rcall, ncases, ninfo)
         unload(ns)
+
+
+def eval_codec_nested(ctx: vlib.Ctx, table, src, ns, rid: int, t, dd, use_json: bool, ccases, cinfo, stream="codec-nested"):
+    """one BasicEncoder / JSONEncoder(<class rid as its users name it>, default_dialect=dd).encode(x) against the hereditary
+    reference; appends the Coq case"""
+    import json as _json
+    from mashumaro.codecs.basic import BasicEncoder
+    from mashumaro.codecs.json import JSONEncoder
+    rep = {"kind_of_case": "codec-nested", "source": src, "cls": cls_ref(table[rid], rid, "C"), "twin": cls_ref(table[rid], rid, "P"),
+           "instance": tree_src(table, t, "C"), "twin_instance": tree_src(table, t, "P"),
+           "entry": "json-codec" if use_json else "codec", "kwargs": "", "default_dialect": "DefD" if dd is not None else None}
+    inst = eval(rep["instance"], ns)
+    twin = eval(rep["twin_instance"], ns)
+    try:
+        plain = BasicEncoder(eval(cls_ref(table[rid], rid, "P"), ns)).encode(twin)
+    except Exception as ex:
+        rep["expected"] = "a mapping"
+        ctx.fail(f"codec: the option-free twin raised {type(ex).__name__}: {ex}"[:300], rep,
+                 {"kind": "plain-raised-" + type(ex).__name__, "entry": "codec-nested"})
+        return
+    hits: dict = {}
+    expected = walk(table, ns, t, inst, plain, (rid,), ALL_FLAGS, (None, None, None), "spec", hits, codec=(dd,))
+    rep["expected"] = repr(expected)
+    rep["plain"] = repr(plain)
+    ctx.count((stream, repr(table), rid, repr(t), dd, use_json))
+    ctx.hist("entry", stream)
+    ctx.hist("codec_root", ("mixin" if table[rid].mixin else "plain") + ("/specialised-generic" if table[rid].generic and table[rid].targ else ""))
+    try:
+        ddc = ns["DefD"] if dd is not None else None
+        if use_json:
+            observed = _json.loads(JSONEncoder(eval(rep["cls"], ns), default_dialect=ddc).encode(inst))
+        else:
+            observed = BasicEncoder(eval(rep["cls"], ns), default_dialect=ddc).encode(inst)
+    except Exception as ex:
+        rep["observed"] = f"{type(ex).__name__}: {ex}"
+        ctx.fail(f"codec {rep['instance']} (default_dialect={dd}) raised {type(ex).__name__}: {ex}"[:400], rep,
+                 {"kind": "raised-" + type(ex).__name__, "entry": "codec-nested"})
+        return
+    rep["observed"] = repr(observed)
+    enc = PvEnc()
+    ccases.append(f"({coq_table(table, ns, enc)}, ({rid}%nat, {coq_node(table, t, inst, plain, enc)}), "
+                  f"{coq_ns(dd)}, (Some {coq_tree_value(observed, enc)}), {coq_bool(not hits)})")
+    cinfo.append(rep)
+    if typed(observed) != typed(expected):
+        ctx.fail(f"codec {rep['instance']} with default_dialect={dd} encodes to {observed!r}, hereditary projection of the "
+                 f"plain output is {expected!r}"[:500], rep, {"kind": "codec-nested-projection-mismatch", "entry": "codec-nested"})
 
 
 def run_codec_nested(ctx: vlib.Ctx, ccases: list[str], cinfo: list):
@@ -1138,46 +1231,7 @@ def run_codec_nested(ctx: vlib.Ctx, ccases: list[str], cinfo: list):
         src = table_source(table, None, order) + (dialect_source("DefD", dd) if dd is not None else "")
         ns = load(src)
         for rid in rng.sample(range(len(table)), min(2, len(table))):
-            t = gen_tree(rng, table, rid, subs=False)
-            use_json = rng.random() < 0.3
-            rep = {"kind_of_case": "codec-nested", "source": src, "cls": f"C{rid}", "twin": f"P{rid}",
-                   "instance": tree_src(table, t, "C"), "twin_instance": tree_src(table, t, "P"),
-                   "entry": "json-codec" if use_json else "codec", "kwargs": "", "default_dialect": "DefD" if dd is not None else None}
-            inst = eval(rep["instance"], ns)
-            twin = eval(rep["twin_instance"], ns)
-            try:
-                plain = BasicEncoder(ns[f"P{rid}"]).encode(twin)
-            except Exception as ex:
-                rep["expected"] = "a mapping"
-                ctx.fail(f"codec: the option-free twin raised {type(ex).__name__}: {ex}"[:300], rep,
-                         {"kind": "plain-raised-" + type(ex).__name__, "entry": "codec-nested"})
-                continue
-            hits: dict = {}
-            expected = walk(table, ns, t, inst, plain, (rid,), ALL_FLAGS, (None, None, None), "spec", hits, codec=(dd,))
-            rep["expected"] = repr(expected)
-            rep["plain"] = repr(plain)
-            ctx.count(("codec-nested", repr(table), rid, repr(t), dd, use_json))
-            ctx.hist("entry", "codec-nested")
-            ctx.hist("codec_root", "mixin" if table[rid].mixin else "plain")
-            try:
-                ddc = ns["DefD"] if dd is not None else None
-                if use_json:
-                    observed = _json.loads(JSONEncoder(ns[f"C{rid}"], default_dialect=ddc).encode(inst))
-                else:
-                    observed = BasicEncoder(ns[f"C{rid}"], default_dialect=ddc).encode(inst)
-            except Exception as ex:
-                rep["observed"] = f"{type(ex).__name__}: {ex}"
-                ctx.fail(f"codec {rep['instance']} (default_dialect={dd}) raised {type(ex).__name__}: {ex}"[:400], rep,
-                         {"kind": "raised-" + type(ex).__name__, "entry": "codec-nested"})
-                continue
-            rep["observed"] = repr(observed)
-            enc = PvEnc()
-            ccases.append(f"({coq_table(table, ns, enc)}, ({rid}%nat, {coq_node(table, t, inst, plain, enc)}), "
-                          f"{coq_ns(dd)}, (Some {coq_tree_value(observed, enc)}), {coq_bool(not hits)})")
-            cinfo.append(rep)
-            if typed(observed) != typed(expected):
-                ctx.fail(f"codec {rep['instance']} with default_dialect={dd} encodes to {observed!r}, hereditary projection of the "
-                         f"plain output is {expected!r}"[:500], rep, {"kind": "codec-nested-projection-mismatch", "entry": "codec-nested"})
+            eval_codec_nested(ctx, table, src, ns, rid, gen_tree(rng, table, rid, subs=False), dd, rng.random() < 0.3, ccases, cinfo)
         unload(ns)
 
 
@@ -1214,6 +1268,79 @@ def run_history(ctx: vlib.Ctx, ncases: list[str], ninfo: list):
                         eval_nested(ctx, table, order, src, ns, 0, t, None, None, call if with_dialect else None,
                                     ncases, ninfo, stream="history")
                     unload(ns)
+
+
+def run_generic(ctx: vlib.Ctx, ncases: list[str], ninfo: list, ccases: list[str], cinfo: list):
+    """systematic (every run, every seed): a generic dataclass G(Generic[T]) with `gv: T` under every binding of
+    GENERIC_SHAPES (bare, int, date, Optional[...], a wider union with None, Any) -- mixin / plain with Config / plain
+    without Config -- with omit_none coming from its Config, its Config.dialect, the owner's forwarded keyword or the codec's
+    default dialect, referenced through a direct, Optional, List, Dict and Union field; gv holds None and not None"""
+    rng = ctx.rng
+    other = NCls(Opts(), (FieldSpec("z", "optint", "val", "None", None, False),), False)
+    shapes = [DcField("i", (1,), False, "in", False), DcField("i", (1,), True, None, False),
+              DcField("i", (1,), False, None, False, many=True), DcField("i", (1,), False, None, False, mapping=True),
+              DcField("i", (2, 1), False, None, False)]
+    for targ, gsh in GENERIC_SHAPES.items():
+        gv = FieldSpec("gv", gsh.key, "no", None, "GV", False)
+        leaf = FieldSpec("y", "optint", "val", "None", None, False)
+        inner_kinds = [
+            NCls(Opts(cfg=("T", "U", "U")), (gv, leaf), True, generic=True, targ=targ),
+            NCls(Opts(cfgd=("T", "U", "T"), fon=True), (leaf, gv), True, generic=True, targ=targ),
+            NCls(Opts(cfg=("T", "U", "U")), (gv, leaf), False, generic=True, targ=targ),
+            NCls(Opts(), (gv, leaf), False, generic=True, targ=targ),
+        ]
+        for ik, inner in enumerate(inner_kinds):
+            f = shapes[(ik + rng.randrange(len(shapes))) % len(shapes)]
+            outer = NCls(Opts(cfg=(rng.choice(TRI), "U", "U"), fon=ik == 1 or rng.random() < 0.3), (f, FieldSpec("w", "int", "val", "1", "W", False)), True)
+            table = [outer, inner, other]
+            order = [2, 1, 0]
+            dd = ("T", "U", "U")
+            src = table_source(table, None, order) + dialect_source("DefD", dd)
+            ns = load(src)
+            ctx.hist("generic_binding", targ or "<bare>")
+            for gval in gsh.values[:2]:          # the first value is None where the binding admits it
+                t = gen_tree(rng, table, 0)
+                t = force_gv(table, t, gval)
+                for kon in ((None, True, False) if outer.o.fon else (None,)):
+                    eval_nested(ctx, table, order, src, ns, 0, t, kon, None, None, ncases, ninfo, stream="generic")
+                # the specialised class itself as a codec type, omit_none from the codec's default dialect
+                t1 = (1, [gval if isinstance(x, FieldSpec) and x.name == "gv" else "None" for x in inner.fields])
+                eval_codec_nested(ctx, table, src, ns, 1, t1, dd if ik != 1 else None, False, ccases, cinfo, stream="generic-codec")
+            unload(ns)
+
+
+def force_gv(table, t, gval: str):
+    """the tree t with the `gv` leaf of every generic node set to gval"""
+    cid, ch = t
+    out = []
+    for f, x in zip(table[cid].fields, ch):
+        if isinstance(f, FieldSpec):
+            out.append(gval if (f.name == "gv" and table[cid].generic) else x)
+        elif isinstance(x, list):
+            out.append([force_gv(table, y, gval) for y in x] or [force_gv(table, gen_min_tree(table, f.members[0]), gval)])
+        elif isinstance(x, dict):
+            out.append({k: force_gv(table, y, gval) for k, y in x.items()} or {"k0": force_gv(table, gen_min_tree(table, f.members[0]), gval)})
+        elif isinstance(x, str):
+            out.append(force_gv(table, gen_min_tree(table, f.members[0]), gval))     # an Optional field holding None: fill it
+        else:
+            out.append(force_gv(table, x, gval))
+    return (cid, out)
+
+
+def gen_min_tree(table, cid: int):
+    ch = []
+    for f in table[cid].fields:
+        if isinstance(f, FieldSpec):
+            ch.append(f.sh.values[-1])
+        elif f.many:
+            ch.append([])
+        elif f.mapping:
+            ch.append({})
+        elif f.optional:
+            ch.append("None")
+        else:
+            ch.append(gen_min_tree(table, f.members[0]))
+    return (cid, ch)
 
 
 # ---------------------------------------------------------------------------
@@ -1443,7 +1570,10 @@ def run(ctx: vlib.Ctx):
 
     ncases: list[str] = []
     ninfo: list = []
+    ccases: list[str] = []
+    cinfo: list = []
     run_history(ctx, ncases, ninfo)
+    run_generic(ctx, ncases, ninfo, ccases, cinfo)
     run_nested(ctx, ncases, ninfo)
 
     name = "to_dict-model-vs-generated-code"
@@ -1470,8 +1600,6 @@ def run(ctx: vlib.Ctx):
         if bad:
             ctx.not_shown("correspondence " + name, detail)
 
-    ccases: list[str] = []
-    cinfo: list = []
     run_codec_nested(ctx, ccases, cinfo)
     name = "codec-nested-model-vs-generated-code"
     bad, log = vlib.coq_bad_idx("c08_codec", "OptProj OptNested", "", NESTED_DEFS, ccases, "ccase_ok",
@@ -1530,7 +1658,7 @@ def replay(rep: dict) -> int:
     try:
         if rep.get("kind_of_case") == "codec-nested":
             from mashumaro.codecs.basic import BasicEncoder
-            plain = BasicEncoder(ns[rep["twin"]]).encode(twin)
+            plain = BasicEncoder(eval(rep["twin"], ns)).encode(twin)
         else:
             plain = twin.to_dict()
     except Exception as ex:
@@ -1540,14 +1668,14 @@ def replay(rep: dict) -> int:
             import json as _json
             from mashumaro.codecs.json import JSONEncoder
             dd = ns[rep["default_dialect"]] if rep.get("default_dialect") else None
-            got = _json.loads(JSONEncoder(ns[rep["cls"]], default_dialect=dd).encode(inst))
+            got = _json.loads(JSONEncoder(eval(rep["cls"], ns), default_dialect=dd).encode(inst))
         elif rep.get("entry") == "toml":
             import tomllib
             got = tomllib.loads(eval(f"_x.to_toml({rep['kwargs']})", dict(ns, _x=inst)))
         elif rep.get("entry") == "codec":
             from mashumaro.codecs.basic import BasicEncoder
             dd = ns[rep["default_dialect"]] if rep.get("default_dialect") else None
-            got = BasicEncoder(ns[rep["cls"]], default_dialect=dd).encode(inst)
+            got = BasicEncoder(eval(rep["cls"], ns), default_dialect=dd).encode(inst)
         else:
             got = eval(f"_x.to_dict({rep['kwargs']})", dict(ns, _x=inst))
     except Exception as ex:
